@@ -539,8 +539,12 @@ impl Source for TestSource {
             FillMode::Int => dest.fill_interleaved(data)?,
             FillMode::Bytes => {
                 let b = self.bytes_per_sample.unwrap_or((self.audio.bps + 7) / 8);
-                let bytes = to_le_bytes(data, b);
-                dest.fill_le_bytes(&bytes, b)?;
+                // the byte slice handed over starts at every alignment 0..=3 in turn (a reader
+                // slicing into an I/O buffer gives no alignment guarantee)
+                let off = (k + self.audio.samples.len()) % 4;
+                let mut bytes = vec![0xEEu8; off];
+                bytes.extend_from_slice(&to_le_bytes(data, b));
+                dest.fill_le_bytes(&bytes[off..], b)?;
             }
         }
         self.pos += n;
